@@ -13,27 +13,27 @@ Placements ==
   [cli : BOOLEAN, gcp : {FALSE}, main : BOOLEAN, custom : SUBSET {"A", "B", "C", "dsf"},
    mainF : FSeqs, cliF : {<<>>, <<"B">>, <<"B", "A">>}, hasCliF : BOOLEAN,
    envF : {<<"B">>}, envMode : {"none"}, childA : {<<>>, <<"C">>, <<"C", "dsf">>},
-   flagsCli : {{}, {"dh"}}, flagsMain : SUBSET {"dsf", "dh"}, noGit : BOOLEAN]
+   flagsCli : {{}, {"dh"}}, flagsMain : SUBSET {"dsf", "dh"}, optB : {TRUE}, noGit : BOOLEAN]
   \cup
   [cli : {FALSE}, gcp : BOOLEAN, main : BOOLEAN, custom : {{"A"}, {"A", "B"}, {"B", "C"}},
    mainF : {<<>>, <<"A">>, <<"A", "B">>}, cliF : {<<>>, <<"A">>}, hasCliF : BOOLEAN,
    envF : {<<"B">>, <<"B", "A">>}, envMode : {"plain", "plus"}, childA : {<<>>, <<"C">>},
-   flagsCli : {{}}, flagsMain : {{}, {"dsf"}}, noGit : {FALSE}]
+   flagsCli : {{}}, flagsMain : {{}, {"dsf"}}, optB : BOOLEAN, noGit : {FALSE}]
   \cup   \* features listed twice; a custom section named like a builtin feature that does not set the option itself
   [cli : {FALSE}, gcp : {FALSE}, main : {FALSE}, custom : SUBSET {"A", "B", "nav"},
    mainF : {<<>>, <<"A", "B", "A">>, <<"B", "A", "B">>, <<"nav", "A">>, <<"A", "nav">>},
    cliF : {<<>>, <<"A", "B", "A">>, <<"B", "A", "B">>, <<"A", "nav", "A">>}, hasCliF : BOOLEAN,
    envF : {<<"A">>, <<"B">>}, envMode : {"none", "plus"}, childA : {<<>>, <<"nav">>, <<"B">>},
-   flagsCli : {{}, {"nav"}, {"nav", "dsf"}}, flagsMain : {{}, {"nav"}, {"nav", "dh"}}, noGit : {FALSE}]
+   flagsCli : {{}, {"nav"}, {"nav", "dsf"}}, flagsMain : {{}, {"nav"}, {"nav", "dh"}}, optB : {TRUE}, noGit : {FALSE}]
   \cup   \* --no-gitconfig with every gitconfig source set
   [cli : BOOLEAN, gcp : BOOLEAN, main : BOOLEAN, custom : SUBSET {"A", "dsf"},
    mainF : {<<>>, <<"A">>}, cliF : {<<>>, <<"A">>, <<"dsf", "A">>, <<"dsf", "dh", "dsf">>, <<"dh", "dsf", "dh">>}, hasCliF : BOOLEAN,
    envF : {<<"A">>}, envMode : {"none", "plus"}, childA : {<<>>, <<"dsf">>},
-   flagsCli : {{}, {"dh"}}, flagsMain : {{}, {"dsf"}}, noGit : {TRUE}]
+   flagsCli : {{}, {"dh"}}, flagsMain : {{}, {"dsf"}}, optB : BOOLEAN, noGit : {TRUE}]
   \cup   \* a built-in feature that contains another one (side-by-side -> line-numbers), with and without a gitconfig object
   [cli : {FALSE}, gcp : {FALSE}, main : {FALSE}, custom : {{}}, mainF : {<<>>, <<"sbs">>},
    cliF : {<<>>, <<"sbs">>, <<"ln">>, <<"A", "sbs">>}, hasCliF : BOOLEAN, envF : {<<"sbs">>}, envMode : {"none", "plain"},
-   childA : {<<>>, <<"sbs">>}, flagsCli : {{}, {"sbs"}}, flagsMain : {{}, {"sbs"}}, noGit : BOOLEAN]
+   childA : {<<>>, <<"sbs">>}, flagsCli : {{}, {"sbs"}}, flagsMain : {{}, {"sbs"}}, optB : {TRUE}, noGit : BOOLEAN]
 Sane(q) == (q.hasCliF <=> q.cliF # <<>>)
 Init == p \in {q \in Placements : Sane(q)} /\ done = FALSE
 Next == ~done /\ done' = TRUE /\ UNCHANGED p
